@@ -21,7 +21,7 @@ RULE = ("record lists = every multiset of m<=M records over a 4-pixel alphabet (
         "ensure_sorted; also through `cooler load` and `cload pairs` with --chunksize/--mergebuf/--max-merge. Oracle: dict-sum of all "
         "records, validator V on the output, explicit temp_dir empty after return (plus one fresh-interpreter run). Non-trivial: >=2 "
         "chunks. Distinct by construction.")
-EXTRA_LEGS = 'bin-id columns of the chunks rotate through int64/uint32/int32/uint16/uint64/int16 (unsorted chunks visited with unsigned ids).'
+EXTRA_LEGS = 'bin-id columns of the chunks rotate through int64/uint32/int32/uint16/uint64/int16 (unsorted chunks visited with unsigned ids).' + ' records repeated inside one chunk are, every other time, handed over raw with dupcheck=False instead of pre-summed.'
 BOUNDS = {"quick": "M=3; mergebuf {1,2,1e6} x max_merge {1,2,200} on the symmetric fixed-width line, 3 diagonal combinations for streams with an empty chunk / square mode / variable table; empty-chunk insertions on partitions with <=2 blocks",
           "thorough": "M=4; mergebuf {1,2,3,m,1e6} x max_merge {1,2,3,200} in full for M<=3; at M=4 mergebuf {1,2,4,1e6} x max_merge {1,2,200} on the symmetric fixed-width line and three diagonal combinations for square mode / variable table; empty-chunk insertions everywhere for M<=3"}
 ASSUMPTIONS = ["records repeated inside one chunk are pre-summed by the harness, or (every other such case) handed over raw with dupcheck=False", "values are small integers / dyadic rationals: sums are exact"]
